@@ -9,7 +9,7 @@ from . import result as R, kernels as K
 
 PROPERTY = "C13"
 META = {
-    "bounds": {"quick": "constructor: records of N=3 samples per channel, every sample carries a symbolic finiteness flag and a symbolic value; 10 layouts (1-D float64 contiguous / float32 / strided view / list; 2xN C-order, Nx2 C-order, Nx2 Fortran-order (= transposed 2xN), 2xN Fortran-order, list of two arrays, Nx2 float32); buffers never written: 18 kernels at K=1 and K=2 (back-to-back and overlapping segments); definedness: every division / sqrt executed for the density, coherence, transfer-function and error attributes on a generic bin including all-zero statistics",
+    "bounds": {"quick": "constructor: records of N=3 samples per channel, every sample carries a symbolic finiteness flag and a symbolic value; 10 layouts (1-D float64 contiguous / float32 / strided view / list; 2xN C-order, Nx2 C-order, Nx2 Fortran-order (= transposed 2xN), 2xN Fortran-order, list of two arrays, Nx2 float32); results stay finite whatever the kernels return: compute() with kernel stand-ins returning (finite?, value) statistics with symbolic flags on a 2-bin plan (3 order/mode/backend combinations); buffers never written: 18 kernels at K=1 and K=2 (back-to-back and overlapping segments); definedness: every division / sqrt executed for the density, coherence, transfer-function and error attributes on a generic bin including all-zero statistics",
                "thorough": "N=4, kernels additionally at L=4"},
     "outside": ["IEEE overflow/underflow for huge finite inputs (reals are exact here)", "the copy/alias rules of numpy are modelled (asarray: no copy for an ndarray; ascontiguousarray: no copy iff dtype and C-contiguity already match; views share memory -- the latter is numpy's own behaviour on the object arrays used) and cross-checked against real numpy on the same layouts on every run"],
     "stubs": ["np.isfinite / np.nan_to_num on (flag, value) samples", "np.asarray / np.ascontiguousarray with the copy rule above"],
@@ -32,6 +32,11 @@ class FV:
     # arithmetic / comparisons on a raw sample use its value (an arbitrary number when the sample is not finite)
     def _v(self):
         return _fv_as_value(self)
+
+    _symx_value = _v
+
+    def _symx_float(self):
+        return self            # float(sample) keeps the sample (its finiteness flag travels with it)
 
     def __add__(self, o): return self._v() + (o._v() if isinstance(o, FV) else o)
     __radd__ = __add__
@@ -314,8 +319,108 @@ def ob_defined_errors(W):
     W.vc_goals("defined")
 
 
+def ob_result_sanitised(W, order, iscsd, backend):
+    """whatever a kernel returns -- including statistics that are not finite, which overflow produces for huge finite samples --
+    the statistics stored in the result of compute() are finite numbers: non-finite ones are replaced by zero.  The kernels are
+    stand-ins returning (finite?, value) statistics with symbolic flags; the analyzer is built by its real constructor."""
+    import speckit.analysis as A
+    from . import C05
+    Ls, Ks = [4, 6], [2, 1]
+    nf, N = 2, 12
+    names = ("MXX", "MYY", "mu_r", "mu_i", "M2")
+    flags = [[W.bool("fin%d_%s" % (j, nm)) for nm in names] for j in range(nf)]
+    vals = [[W.real("val%d_%s" % (j, nm)) for nm in names] for j in range(nf)]
+    D = [rnp.array([0, 8]), rnp.array([0])]
+    if W.sym:
+        fs = SR(z3.RealVal(2))
+        calls = []
+
+        def kernel(*args):
+            j = len(calls)
+            calls.append(args)
+            return tuple(FV(flags[j][i], vals[j][i], ("stat", j, i)) for i in range(5))
+        over = {K.fname(b, fam, m): kernel for b in K.BACKENDS for fam in K.FAMILIES for m in ("auto", "csd")}
+
+        class _Np(C13Np):
+            def empty(self, shape, dtype=None, **k):
+                a = rnp.empty(shape, dtype=object)
+                a.fill(SR(z3.RealVal(0)))
+                return a.view(MetaNd)
+
+            def real(self, a):
+                return _map_fv(a, lambda e: e.real if hasattr(e, "real") and not isinstance(e, FV) else e)
+
+            def imag(self, a):
+                return _map_fv(a, lambda e: e.imag if hasattr(e, "imag") and not isinstance(e, FV) else 0)
+        NP = _Np()
+        over.update(np=NP, _build_Q=lambda L, o: C05.QTag(int(L), int(o)))
+        G = clone_module(A, over, importer=lambda name, fromlist: (NP if name == "numpy" else None))
+        x1 = W.reals("x", N); x2 = W.reals("y", N) if iscsd else None
+        plan = {"f": rnp.array([0.1, 0.3]), "r": rnp.array([2.0 / L for L in Ls]), "b": rnp.array([0.1 * Ls[0] / 2, 0.3 * Ls[1] / 2]), "L": rnp.array(Ls), "K": rnp.array(Ks),
+                "navg": rnp.array(Ks), "D": [d.copy() for d in D], "O": rnp.zeros(nf), "nf": nf}
+        data = x1 if not iscsd else rnp.array([list(x1), list(x2)], dtype=object).view(SymNd)
+        a = G["SpectrumAnalyzer"](data, fs, order=order, backend=backend, win="hann", olap=0.5, scheduler=(lambda **kw: plan))
+        res = a.compute()
+        d = res._data
+        for key in ("XX", "YY", "M2", "S2", "S12"):
+            for j in range(nf):
+                e = d[key][j]
+                W.goal("result %s[%d] is a finite number" % (key, j), True if not isinstance(e, FV) else e.fin)
+        for j in range(nf):
+            e = d["XY"][j]
+            for part, nm in ((getattr(e, "re", e), "re"), (getattr(e, "im", 0), "im")):
+                W.goal("result XY[%d].%s is a finite number" % (j, nm), True if not isinstance(part, FV) else part.fin)
+            W.goal("XX[%d] = kernel value if finite else 0" % j, W.eq(d["XX"][j] if not isinstance(d["XX"][j], FV) else d["XX"][j]._v(), ite(flags[j][0], vals[j][0], 0.0)))
+        return
+    # replay: real compute() with kernels returning inf / nan where the model's flag is false
+    import speckit.analysis as A
+    bad = [float("inf"), float("nan"), -float("inf")]
+    calls = []
+
+    def kernel(*args):
+        j = len(calls)
+        calls.append(args)
+        return tuple((float(vals[j][i]) if bool(flags[j][i]) else bad[(i + j) % 3]) for i in range(5))
+    saved = {}
+    for b in K.BACKENDS:
+        for fam in K.FAMILIES:
+            for m in ("auto", "csd"):
+                nm = K.fname(b, fam, m)
+                if hasattr(A, nm):
+                    saved[nm] = getattr(A, nm)
+                    setattr(A, nm, kernel)
+    try:
+        rng = rnp.random.default_rng(5)
+        data = rng.standard_normal((2, N)) if iscsd else rng.standard_normal(N)
+        plan = {"f": rnp.array([0.1, 0.3]), "r": rnp.array([2.0 / L for L in Ls]), "b": rnp.array([0.1 * Ls[0] / 2, 0.3 * Ls[1] / 2]), "L": rnp.array(Ls), "K": rnp.array(Ks),
+                "navg": rnp.array(Ks), "D": [d.copy() for d in D], "O": rnp.zeros(nf), "nf": nf}
+        res = A.SpectrumAnalyzer(data, 2.0, order=order, backend=backend, win="hann", olap=0.5, scheduler=(lambda **kw: plan)).compute()
+        ok = all(bool(rnp.all(rnp.isfinite(getattr(res, k)))) for k in ("XX", "YY", "XY", "M2", "S2", "S12"))
+        for j in range(nf):
+            exp = float(vals[j][0]) if bool(flags[j][0]) else 0.0
+            ok = ok and abs(float(res.XX[j]) - exp) <= 1e-9 * (1 + abs(exp))
+    except Exception as e:
+        ok = False
+        W.note("real compute() raised %r" % (e,))
+    finally:
+        for nm, f in saved.items():
+            setattr(A, nm, f)
+    W.resolver = lambda name: ok
+
+
+def _map_fv(a, f):
+    a = rnp.asarray(a, dtype=object)
+    out = rnp.empty(a.shape, dtype=object)
+    for idx in rnp.ndindex(a.shape):
+        out[idx] = f(a[idx])
+    return out.view(MetaNd)
+
+
 def obligations(tier):
     obs = [{"name": "copy-model", "fn": "ob_copy_model", "params": {}, "vacuity": False}]
+    for order, iscsd, backend in ((0, True, "numpy"), (-1, False, "numba"), (1, True, "cuda")):
+        obs.append({"name": "result-sanitised/o%d/%s/%s" % (order, "csd" if iscsd else "auto", backend), "fn": "ob_result_sanitised",
+                    "params": {"order": order, "iscsd": iscsd, "backend": backend}, "weight": 6})
     N = 3 if tier == "quick" else 4
     for layout in LAYOUTS:
         obs.append({"name": "constructor/%s" % layout, "fn": "ob_constructor", "params": {"layout": layout, "N": N}, "fork": True, "max_paths": 600, "weight": 10})
